@@ -21,6 +21,11 @@ CHECKS = {
         note="Trusted: as C11. The model is of the repaired loop (fix commit for D-1).",
         technique="Lean 4 refinement proof (readText refines Reads) + ASan exact-buffer correspondence through gr_make_seg",
         ref="§6 C12"),
+    "C13": dict(
+        text="Proof (Lean 4 kernel), partial: for EVERY cmap table and subtable offset accepted by the model of CheckCmapSubtable4 / CheckCmapSubtable12, the format-4 lookup (binary search, four parallel arrays, idRangeOffset indirection with its length guard) and the format-12 lookup never read outside the table, for every code point and every valid range key. The functional clauses - each path gives the glyph the OpenType rules assign, cached = direct - are decided per table by EXHAUSTIVE comparison over all 0x110000 code points (model vs implementation vs an OpenType reference written from the spec) on shipped cmap tables and synthesised format-4/12 subtables (many segments, wrapping deltas, idRangeOffset arrays with zero entries, block-boundary code points, BMP-only and BMP+SMP, consistent and inconsistent), plus mutated tables for memory safety; not yet by a theorem.",
+        note="Trusted: Lean kernel + [propext, Classical.choice, Quot.sound]; hand-written Model/Cmap.lean tied by exhaustive per-table comparison under ASan; OpenType reference in tools/cmapgen.py. Not proved: lookup = spec under well-formedness, cached = direct (correspondence only); NextCodepoint/cache construction in-bounds (correspondence only); Silf pseudo-glyph fallback not covered.",
+        technique="Lean 4 in-bounds proofs for all accepted tables + exhaustive 0x110000-code-point differential per table",
+        ref="§6 C13"),
     "C14": dict(
         text="Proof (Lean 4 kernel), partial: for ALL input byte strings and output sizes the model of lz4::decompress (word-wise overrun copies, u32 length accumulators, size_t wrap of the space test) never reads outside the input nor stores outside the announced output size and returns at most that size (lz4_in_bounds); Face::Table construction from arbitrary bytes never faults and replaces a table only by a complete decompression of exactly the announced size with matching version word (table_all_or_nothing); header split scheme:5/size:27 with REGENERATED constants (MINMATCH, LASTLITERALS, MINCODA, MINSRCSIZE, shift, mask). The 'exactly what a reference decoder produces' and 'valid blocks decode to the plaintext' clauses are decided by correspondence only (model = implementation incl. residual output bytes; implementation vs liblz4 LZ4_decompress_safe; randomised valid encodings of shipped tables), not yet by a theorem.",
         note="Trusted: Lean kernel + [propext, Classical.choice, Quot.sound]; extractor for Gen.Lz4; hand-written Model/Lz4.lean tied by finite differential runs under ASan; LP64 word size; liblz4 as reference. Not proved: functional equality with the block-format spec (lz4_sound/lz4_complete); whole-font shaping equality of compressed vs uncompressed fonts.",
